@@ -401,7 +401,8 @@ struct Scenario {
     args: Vec<i128>,
 }
 
-fn file_ops(name: &'static str, canon_bytes: &[u8], other: &[(&str, Vec<u8>)], cap: u64, r: &mut Rng, flips: usize) -> Vec<(String, Vec<Op>)> {
+/// `lean`: the subset used where every rejection costs a full circuit rebuild inside the loader
+fn file_ops(name: &'static str, canon_bytes: &[u8], other: &[(&str, Vec<u8>)], cap: u64, r: &mut Rng, flips: usize, lean: bool) -> Vec<(String, Vec<Op>)> {
     let n = canon_bytes.len();
     let mut v: Vec<(String, Vec<Op>)> = Vec::new();
     let mut t = canon_bytes.to_vec();
@@ -410,10 +411,12 @@ fn file_ops(name: &'static str, canon_bytes: &[u8], other: &[(&str, Vec<u8>)], c
     let mut e = canon_bytes.to_vec();
     e.push(0);
     v.push((format!("{name}:ext-00"), vec![Op::Set(name, e)]));
-    let mut e = canon_bytes.to_vec();
-    e.extend_from_slice(&[0xffu8; 9]);
-    v.push((format!("{name}:ext-9xff"), vec![Op::Set(name, e)]));
-    let mut pos = vec![0usize, n - 1];
+    if !lean {
+        let mut e = canon_bytes.to_vec();
+        e.extend_from_slice(&[0xffu8; 9]);
+        v.push((format!("{name}:ext-9xff"), vec![Op::Set(name, e)]));
+    }
+    let mut pos = if lean { vec![] } else { vec![0usize, n - 1] };
     for _ in 0..flips {
         pos.push(r.below(n as u64) as usize);
     }
@@ -422,8 +425,10 @@ fn file_ops(name: &'static str, canon_bytes: &[u8], other: &[(&str, Vec<u8>)], c
         b[p] ^= 1u8 << r.below(8);
         v.push((format!("{name}:bitflip"), vec![Op::Set(name, b)]));
     }
-    for (t, o) in other {
-        v.push((format!("{name}:other-{t}"), vec![Op::Set(name, o.clone())]));
+    for (i, (t, o)) in other.iter().enumerate() {
+        if !lean || i == 0 {
+            v.push((format!("{name}:other-{t}"), vec![Op::Set(name, o.clone())]));
+        }
     }
     v.push((format!("{name}:oversized-sparse"), vec![Op::Sparse(name, cap + 1)]));
     v.push((format!("{name}:missing"), vec![Op::Remove(name)]));
@@ -544,7 +549,7 @@ fn c17(keep: Option<PathBuf>) {
         // sparse files: the metadata claims cap + 1 bytes, nothing is stored
         file_case("files:verifier-oversized-sparse".into(), Some((cap + 1, vec![])), full(&vc_c), &mut cases);
         file_case("files:common-oversized-sparse".into(), full(&vc_v), Some((cap + 1, vec![])), &mut cases);
-        file_case("files:both-oversized-sparse".into(), Some((cap + 1, vec![])), Some((u64::MAX / 4, vec![])), &mut cases);
+        file_case("files:both-oversized-sparse".into(), Some((cap + 1, vec![])), Some((1u64 << 41, vec![])), &mut cases);
         file_case("files:verifier-huge-sparse".into(), Some((1u64 << 40, vec![])), full(&vc_c), &mut cases);
         // exactly at the cap: read and rejected by the pin, not by the size check
         file_case("files:verifier-at-cap".into(), Some((cap, vec![0u8; cap as usize])), full(&vc_c), &mut cases);
@@ -568,7 +573,7 @@ fn c17(keep: Option<PathBuf>) {
     // --- 1703: aggregator leaf pin (every call rebuilds the leaf circuit)
     let oc = [("zk-config", zk_c.clone()), ("fake-leaf", fk_c.clone()), ("pb-common", canon.pb[&1].1.clone())];
     let ov = [("zk-config", zk_v.clone()), ("fake-leaf", fk_v.clone()), ("pb-vo", canon.pb[&1].2.clone())];
-    let cands = pair_candidates(&mut r, &canon.leaf_c, &canon.leaf_v, &oc, &ov, flips);
+    let cands = pair_candidates(&mut r, &canon.leaf_c, &canon.leaf_v, &oc, &ov, if thorough { 4000 } else { 40 });
     let outs: Vec<Vec<i128>> = cands.par_iter().map(|(_, c, v)| cls17(no_panic(|| au::load_canonical_leaf_verifier_data(c, v)))).collect();
     for ((tag, c, v), out) in cands.iter().zip(outs) {
         cases.push((1703, tag.clone(), vec![seg_bytes(c), seg_bytes(v), seg_bytes(&canon.leaf_c), seg_bytes(&canon.leaf_v)], out));
@@ -579,7 +584,16 @@ fn c17(keep: Option<PathBuf>) {
         let (_, c2, v2) = &canon.pb[&2];
         let oc = [("shape-n2", c2.clone()), ("public-config", pbo_c.clone()), ("leaf-common", canon.leaf_c.clone()), ("public-batch", canon.pb_pub[&(1, 1)].0.clone())];
         let ov = [("shape-n2", v2.clone()), ("public-config", pbo_v.clone()), ("leaf-vo", canon.leaf_v.clone()), ("public-batch", canon.pb_pub[&(1, 1)].1.clone())];
-        let mut cands: Vec<(String, Vec<u8>, Vec<u8>, usize)> = pair_candidates(&mut r, c1, v1, &oc, &ov, if thorough { 300 } else { 14 }).into_iter().map(|(t, c, v)| (t, c, v, 1usize)).collect();
+        let mut cands: Vec<(String, Vec<u8>, Vec<u8>, usize)> = pair_candidates(&mut r, c1, v1, &oc, &ov, if thorough { 200 } else { 1 }).into_iter().map(|(t, c, v)| (t, c, v, 1usize)).collect();
+        if !thorough {
+            // every call rebuilds the private-batch circuit (seconds): keep one candidate per mutation kind and side
+            let mut seen = std::collections::BTreeSet::new();
+            cands.retain(|(t, _, _, _)| {
+                let kind: String = t.split('-').next().unwrap().to_string();
+                let keep = ["common:trunc", "vo:trunc", "common:ext", "vo:ext", "common:bitflip", "vo:bitflip", "common:other", "vo:other", "canonical", "swapped", "common:poisoned"].contains(&kind.as_str());
+                keep && seen.insert(kind)
+            });
+        }
         cands.push(("n2:canonical".into(), c2.clone(), v2.clone(), 2));
         cands.push(("n2:artifacts-of-n1".into(), c1.clone(), v1.clone(), 2));
         cands.push(("n1:artifacts-of-n2".into(), c2.clone(), v2.clone(), 1));
@@ -600,6 +614,7 @@ fn c17(keep: Option<PathBuf>) {
     let cap = au::MAX_ARTIFACT_FILE_BYTES;
     let mut scen: Vec<Scenario> = Vec::new();
     let nf = if thorough { 12 } else { 2 };
+    let nh = if thorough { 6 } else { 1 };
     let cfg_json = |n: usize, m: Option<usize>| -> Vec<u8> {
         match m {
             Some(m) => format!("{{\"num_leaf_proofs\": {n}, \"num_private_batch_proofs\": {m}}}").into_bytes(),
@@ -611,17 +626,17 @@ fn c17(keep: Option<PathBuf>) {
         let (_, c2, v2) = &canon.pb[&2];
         let (pc, pv) = &canon.pb_pub[&(1, 1)];
         let (pc2, pv2) = &canon.pb_pub[&(2, 1)];
-        let leaf_files: Vec<(String, Vec<Op>)> = file_ops("common.bin", &canon.leaf_c, &[("zk-config", zk_c.clone()), ("fake-leaf", fk_c.clone())], cap, &mut r, nf)
+        let leaf_files: Vec<(String, Vec<Op>)> = file_ops("common.bin", &canon.leaf_c, &[("zk-config", zk_c.clone()), ("fake-leaf", fk_c.clone())], cap, &mut r, nf, false)
             .into_iter()
-            .chain(file_ops("verifier.bin", &canon.leaf_v, &[("zk-config", zk_v.clone()), ("fake-leaf", fk_v.clone())], cap, &mut r, nf))
+            .chain(file_ops("verifier.bin", &canon.leaf_v, &[("zk-config", zk_v.clone()), ("fake-leaf", fk_v.clone())], cap, &mut r, nf, false))
             .collect();
-        let pb_files: Vec<(String, Vec<Op>)> = file_ops("private_batch_common.bin", c1, &[("shape-n2", c2.clone()), ("public-config", pbo_c.clone())], cap, &mut r, nf)
+        let pb_files: Vec<(String, Vec<Op>)> = file_ops("private_batch_common.bin", c1, &[("shape-n2", c2.clone()), ("public-config", pbo_c.clone())], cap, &mut r, nh, !thorough)
             .into_iter()
-            .chain(file_ops("private_batch_verifier.bin", v1, &[("shape-n2", v2.clone()), ("public-config", pbo_v.clone())], cap, &mut r, nf))
+            .chain(file_ops("private_batch_verifier.bin", v1, &[("shape-n2", v2.clone()), ("public-config", pbo_v.clone())], cap, &mut r, nh, !thorough))
             .collect();
-        let pub_files: Vec<(String, Vec<Op>)> = file_ops("public_batch_common.bin", pc, &[("shape-m2", pc2.clone()), ("private-batch", c1.clone())], cap, &mut r, nf + 2)
+        let pub_files: Vec<(String, Vec<Op>)> = file_ops("public_batch_common.bin", pc, &[("shape-m2", pc2.clone()), ("private-batch", c1.clone())], cap, &mut r, nh + 1, !thorough)
             .into_iter()
-            .chain(file_ops("public_batch_verifier.bin", pv, &[("shape-m2", pv2.clone()), ("private-batch", v1.clone())], cap, &mut r, nf + 2))
+            .chain(file_ops("public_batch_verifier.bin", pv, &[("shape-m2", pv2.clone()), ("private-batch", v1.clone())], cap, &mut r, nh + 1, !thorough))
             .collect();
         let cfg_ops: Vec<(String, Vec<Op>)> = vec![
             ("config:missing".into(), vec![Op::Remove("config.json")]),
@@ -978,20 +993,17 @@ fn c18() {
         }
         variants.push(("private-batch-proof-with-address".into(), q));
     }
-    let rounds = if thorough { 3 } else { 1 };
     for (j, ca) in ctx_addrs.iter().enumerate() {
         let agg = PublicBatchAggregator::new(&dir, address(*ca)).expect("aggregator ctx");
         let ctx = agg.proving_context();
-        for _ in 0..rounds {
-            for (tag, q) in &variants {
-                let out = cls18(no_panic(|| ctx.verify(q.clone())));
-                // the aggregator's own entry point must agree with its context
-                let out2 = cls18(no_panic(|| agg.verify(q.clone())));
-                if out != out2 {
-                    notes.push(("aggregator-vs-context".into(), format!("{tag}: {:?} vs {:?}", out2, out)));
-                }
-                cases.push((1801, format!("ctx{j}:{tag}"), vec![vec![expected_len as i128], seg_u64(ca), seg_u64(&canon_pis(q)), vec![verifies(q) as i128]], out));
+        for (tag, q) in &variants {
+            let out = cls18(no_panic(|| ctx.verify(q.clone())));
+            // the aggregator's own entry point must agree with its context
+            let out2 = cls18(no_panic(|| agg.verify(q.clone())));
+            if out != out2 {
+                notes.push(("aggregator-vs-context".into(), format!("{tag}: {:?} vs {:?}", out2, out)));
             }
+            cases.push((1801, format!("ctx{j}:{tag}"), vec![vec![expected_len as i128], seg_u64(ca), seg_u64(&canon_pis(q)), vec![verifies(q) as i128]], out));
         }
     }
     notes.push(("c18".into(), format!("done after {:?}", t0.elapsed())));
